@@ -147,9 +147,16 @@ def gradient_factory(name):
         def gradient(self):
             """Return the gradient operator."""
             return sinh(self.domain)
+    elif name in ('negative', 'rad2deg', 'deg2rad'):
+        # Linear ufuncs ``x -> c * x``, the gradient is the constant ``c``
+        def gradient(self):
+            """Return the gradient operator."""
+            return ConstantFunctional(self.domain,
+                                      float(getattr(np, name)(1.0)))
     else:
-        # Fallback to default
-        gradient = Functional.gradient
+        # Fallback to default. `Functional.gradient` is a property, its
+        # getter raises `NotImplementedError`
+        gradient = Functional.gradient.fget
 
     return gradient
 
